@@ -50,7 +50,9 @@ ExternalDenom(s, t, d) ==
 
 C15StepChecks(k, e, s, t, g) ==
   LET ds == AllDenoms(s) \cup AllDenoms(t)
-      badExt == {d \in ds : ExternalDenom(s, t, d) /\ Supply(t, d) # Supply(s, d)}
+      \* explicit burns: the burner module destroys whatever sits at the zero address (the burn address) at its epoch end
+      BurnedFromZero(d) == k \in {"Begin", "End"} /\ DSupply(s, t, d) \prec Zero /\ DSupply(s, t, d) = DBal(s, t, "zero", d)
+      badExt == {d \in ds : ExternalDenom(s, t, d) /\ Supply(t, d) # Supply(s, d) /\ ~BurnedFromZero(d)}
       dE == DSupply(s, t, "uelys")
       release == k = "Tx" /\ e.ok /\ e.name \in {"commitment.MsgClaimVesting", "commitment.MsgVestNow"}
       \* shares of pool p change only together with a deposit / withdrawal of the same pool
